@@ -24,7 +24,7 @@ func init() {
 			"T1 nil-unsafe dereference: a pointer to a generated message obtained from a getter or a message field (possibly nil after unmarshalling untrusted bytes) reaches a direct field access only behind a != nil edge for the same access path (parameters are resolved at the call sites in V). " +
 			"T2 allocation proportional to input: make / Grow / strings.Repeat whose size derives from a decoded integer (target of binary.Read — also through the repo's read helpers — or a binary UintN result) must be dominated by an ordering comparison of that value with a constant or a length; sizes looked up in a package-level table of constants are bounded. " +
 			"T3 every Read call in V's packages has its count checked. T4 every function of V with constant offsets into a []byte parameter has a sufficient length guard (layout extraction). " +
-			"T5 no explicit panic and no Must* helper on non-constant input in V (one named suppression). T6 the event-log record loop leaves on the first failed record read and every iteration starts with such a read. " +
+			"T5 no explicit panic and no Must* helper on non-constant input in V (one named suppression). T15 loop progress: loops of V that are counted (integer variable moved strictly on every back edge and compared in an exit test), iterator or consumption loops are decided; a loop variable moved by a decoded amount that no check in the loop makes positive is reported; other shapes are counted as unclassified in evidence. T6 the event-log record loop leaves on the first failed record read and every iteration starts with such a read. " +
 			"T10 sentinel index: the result of a bytes/strings/slices Index-family search (−1 = not found) used as an index, slice bound or allocation size needs a dominating sign test of that very value. T11 x[len(x)−k] / x[:len(x)−k] needs a dominating condition on that very slice value establishing len(x) ≥ k (one named suppression with reason in C07). T12 +,−,*,<< on a decoded operand carried out in fewer bits than the integer type its result is then converted to needs a dominating upper bound of the operand. T13 (ESP) a []byte sliced at bounds that move with a loop counter, in a loop that runs up to a value not computed from the buffer's length, is reached only on paths where executed checks relate that value to the buffer length through some chain of comparisons (decides that a relating chain exists, not that it is arithmetically sufficient). " +
 			"Not covered: panics, loops and allocation inside external decoders (go-sev-guest, go-tdx-guest, proto, x509); non-constant index arithmetic; anything needing a numeric invariant.",
 		Assumptions: []string{"go/types, go/ssa, VTA call graph", "generated protobuf getters are nil-safe", "io.ReadAll(io.LimitReader) and append grow with the data actually present"},
@@ -126,6 +126,10 @@ func runC07(c *Ctx) {
 	if os.Getenv("VCHECK_SURVEY") != "" {
 		c.surveyAccesses(fns)
 	}
+
+	// ---- T15 loop progress (counted / iterator / consumption classes; other shapes are recorded only) ----
+	nL, _ := c.loopProgressRule("T15", fns, nil)
+	c.S.Floor("T15", "loops in the relying-party closure", 10, nL)
 
 	// ---- T6 ----
 	if um := c.P.Method("eventlog", "CryptoAgileLog", "Unmarshal"); um != nil {
